@@ -128,6 +128,18 @@ def sig_ref_ty(sig):
     return "p0(F(%s;%s))" % (sig[2], ",".join(t for t, _ in sig[1]))
 
 
+def gen_decl(sig):
+    """the descriptor of a DECLARATION with this header (no blocks): unnamed parameters are numbered from 0"""
+    name, params, ret = sig
+    n, pdesc = 0, []
+    for t, nm in params:
+        if nm is None:
+            pdesc.append("%s~I%d" % (t, n)); n += 1
+        else:
+            pdesc.append("%s~N%s" % (t, hexs(nm)))
+    return ret, hexs(name), "|".join(pdesc) or "-", "-"
+
+
 def gen_func(rng, max_blocks=4, sig=None, genv=()):
     """returns (descriptor args: ret, name, params, blocks) as a 4-tuple of strings; genv: the globals of the module, [(hex name, type of a reference)]"""
     name, params, ret = sig if sig is not None else gen_sig(rng)
